@@ -237,6 +237,30 @@ def r3_weighted_sum(ctx: Context) -> None:
                 else:
                     term = augs[0].value  # type: ignore[union-attr]
                 lp = getattr(augs[0], "_parent", None)
+                if isinstance(lp, ast.For) and isinstance(lp.target, ast.Tuple) and len(lp.target.elts) == 2 and all(isinstance(x, ast.Name) for x in lp.target.elts) \
+                        and isinstance(lp.iter, ast.Call) and dotted(lp.iter.func) == "enumerate" and len(lp.iter.args) == 1:
+                    # `for k, i in enumerate(S)`: k is a position in S, i a coordinate.  _filter_data pairs filter j with column j of the simulated data
+                    # (C08-R6 / C07-R2), so a term that takes filtered[k] next to real[:, i] compares column k with column i - equal only if S is range(D).
+                    pos, el = lp.target.elts[0].id, lp.target.elts[1].id  # type: ignore[union-attr]
+                    S = lp.iter.args[0]
+                    if str(n.rat(S)) == f"range({D})":
+                        term = _rename(term, pos, el)
+                        idx, rng = el, S
+                    else:
+                        cols = {"simulated": set(), "real": set(), "weight": set()}
+                        inside = {id(y) for c in ast.walk(term) if isinstance(c, ast.Call) and isinstance(c.func, ast.Attribute) and c.func.attr == "compute_loss_1d" for y in ast.walk(c)}
+                        for c in ast.walk(term):
+                            if isinstance(c, ast.Call) and isinstance(c.func, ast.Attribute) and c.func.attr == "compute_loss_1d" and len(c.args) == 2:
+                                for role, a in (("simulated", c.args[0]), ("real", c.args[1])):
+                                    cols[role] |= {x.id for x in ast.walk(a) if isinstance(x, ast.Name) and x.id in (pos, el)}
+                            elif isinstance(c, ast.Subscript) and id(c) not in inside:
+                                cols["weight"] |= {x.id for x in ast.walk(c.slice) if isinstance(x, ast.Name) and x.id in (pos, el)}
+                        used = {frozenset(v) for v in cols.values() if v}
+                        if len(used) > 1:
+                            ctx.fail("R3.term", "BaseLoss.compute_loss:term", f"in `{src(augs[0])[:140]}` the simulated series are selected by `{'/'.join(sorted(cols['simulated']))}` but the real column by "
+                                     f"`{'/'.join(sorted(cols['real']))}` and the weight by `{'/'.join(sorted(cols['weight']))}` while the loop runs over enumerate({src(S)[:40]}): position and coordinate differ as soon as "
+                                     "a coordinate is skipped, so coordinate k of the simulation is compared with coordinate i of the real data", f, augs[0])
+                            continue
                 if isinstance(lp, ast.For) and isinstance(lp.target, ast.Name):
                     idx, rng = lp.target.id, lp.iter
                     extra = [s for s in lp.body if s is not augs[0] and not (isinstance(s, ast.Expr) and isinstance(s.value, ast.Constant))]
@@ -371,3 +395,10 @@ def dtype_rule(ctx: Context) -> None:
         ctx.fail("R7.dtype", f"{f.qualname.split(':')[1]}:inherited-dtype:{' '.join(src(node).split())[:50]}",
                  f"{what}: for integer or lower-precision input the value is silently truncated / rounded on assignment, so the result is no longer what the definition gives", f, node)
     ctx.ok("R7.dtype", "c08:scanned", f"{len(funcs)} functions: no computed value is stored into an array of inherited dtype")
+
+
+def _rename(e: ast.expr, old: str, new: str) -> ast.expr:
+    class T(ast.NodeTransformer):
+        def visit_Name(self, node: ast.Name):  # noqa: N802
+            return ast.Name(id=new, ctx=node.ctx) if node.id == old else node
+    return T().visit(ast.parse(src(e), mode="eval").body)
